@@ -117,11 +117,20 @@ namespace occa {
         ++c;
       } else if (!loadedFormattedValue) {
         if (C == 'E') {
-          primitive exp = primitive::load(++c);
-          // Check if there was an 'F' in exp
+          // Exponent: [+-]digits, an f or l suffix may follow
+          const char *cExp = c + 1;
+          if ((*cExp == '+') || (*cExp == '-')) {
+            ++cExp;
+          }
+          if (!(('0' <= *cExp) && (*cExp <= '9'))) {
+            // Not an exponent, the literal ends before the [e]
+            break;
+          }
+          while (('0' <= *cExp) && (*cExp <= '9')) {
+            ++cExp;
+          }
+          c = cExp;
           decimal = true;
-          float_ = (exp.type & primitiveType::isFloat);
-          break;
         } else if (C == 'F') {
           float_ = true;
           ++c;
